@@ -423,7 +423,7 @@ func (c *Ctx) r125(pk *packages.Package) {
 						continue
 					}
 					s := str(y.Of.Expr)
-					nonEmpty := (s == getVar.Name()+` != ""` && y.Kind == flow.KTrue) || (s == getVar.Name()+` == ""` && y.Kind == flow.KFalse)
+					nonEmpty := (s == c.P.NameOf(getVar)+` != ""` && y.Kind == flow.KTrue) || (s == c.P.NameOf(getVar)+` == ""` && y.Kind == flow.KFalse)
 					if !nonEmpty {
 						continue
 					}
